@@ -365,6 +365,12 @@ def check_module(ctx, rows):
           # parameterisation of the same class
           sig = ("violation-missed:same-class-union-matched-per-element-"
                  "combination")
+      if isinstance(v, type) and shape in ("Iterable", "Sequence",
+                                           "Collection", "Mapping"):
+        # root cause bucket: a class object returned / passed where a
+        # protocol is expected is reported or not depending on what the same
+        # module matched earlier (see known_findings.json)
+        sig = "violation-missed:class-object-against-protocol:depends-on-earlier-matches"
       if shape == "Collection" and isinstance(v, (list, tuple, set, frozenset,
                                                   dict)):
         sig = "violation-missed:Collection-element-type-not-enforced"
@@ -412,6 +418,12 @@ def run_shard(ctx):
 
 
 def replay(ctx, case):
+  if "chunk_start" in case:
+    # the recorded finding needs the rows that were analysed in the same
+    # module: a fixed slice of the grid
+    rows = all_rows(deep=True)
+    check_module(ctx, rows[case["chunk_start"]:case["chunk_start"] + 330])
+    return
   check_module(ctx, [(case["site"], tuple_tree(case["ann"]), case["value"])])
 
 
